@@ -81,6 +81,12 @@ CHECKS = {
          "every element, attribute, URL scheme (browser rule R6), data: content type and style value of the RE-PARSED tree is on the sanitizer's allow-lists and no comment reappears. Plus the concrete lemma that no allow-listed element is written raw but parsed as data or vice versa.",
     note="Inputs are instances of the piece grammar only; one listed known finding (namespace confusion after an escaped integration point) is the single problem class ignored. " + NOTE_COMMON,
     design="§3 C10"),
+ "C07": dict(
+    technique="bounded symbolic execution (CrossHair/z3): conforming documents composed by symbolic index from a grammar of the HTML content model, serializer options symbolic, parse -> walk -> serialize -> parse compared as abstract trees; composition with C08 / C11 / C04 / C13",
+    text="For each of 22 parent contexts (flow containers, a, ins, blockquote, li, td, p, heading, button, table / tbody / tr / colgroup, select / optgroup, ruby, dl, ul, svg, video, details) every ordered pair of the context's conforming children (30 flow items incl. p, lists, tables, dialog, pre, headings, script, style, void elements, forms; table parts; options; ...) with 4 separators, 4 tails (quick: 1 head, thorough: 4 heads) and both walkers: with optional tags omitted the re-parsed tree equals the original (102 944 documents in the quick tier). "
+         "Options: adjacent child pairs x every combination of optional-tag omission, quoting mode, quote char, boolean minimisation, trailing solidus (+space), escape_lt_in_attrs and attribute sorting.",
+    note="Weakest claim of the set: documents are instances of the grammar only; arbitrary text / attribute values are C08's symbolic obligations, walkers C11, builders C04, filter predicates C13. " + NOTE_COMMON,
+    design="§3 C07"),
  "C02": dict(
     technique="bounded symbolic execution (CrossHair/z3) of the real tokenizer state methods from catalogue pre-states on a symbolic continuation of arbitrary Unicode characters, differentially against an independent transcription of the WHATWG tokenizer (R1)",
     text="For every state method of the live HTMLTokenizer class (catalogue rebuilt from /repo at check time: 119 pre-states over 7 configurations = 5 start states x last start tag x CDATA allowed/not) the real tokenizer is run from that pre-state on EVERY string of <= 2 (quick) / 3 (thorough) Unicode characters followed by end of input, "
